@@ -62,3 +62,56 @@ Proof.
     right. split; [lia|]. unfold zcmp in Ec. destruct (b <? v) eqn:Eb; [lia|]. destruct (b =? v); discriminate.
   - split; [reflexivity|left; reflexivity].
 Qed.
+
+(* vm.applySend / vm.applyReceive (vm/vm.go), translated whole: inputs are the verdicts of GetEmbeddedMethod and of the
+   method's ValidateSendBlock, the balance read by enoughFunds, the verdicts of GetAccountBlockByHash / MarkAsReceived;
+   the amount handed to SubBalance / AddBalance is an OUTPUT (captured argument, None = the call is not reached). *)
+Theorem apply_send_debits gm vs z b amt eff :
+  applySend gm vs z b 0 amt = GoSem.Ok (0, eff) ->
+  eff = Some amt /\ (z = 0 \/ amt <= b) /\ (gm = Err_constants_ErrNotContractAddress \/ gm = 0 /\ vs = 0).
+Proof.
+  unfold applySend. cbv zeta. rewrite !enough_funds_num. cbn [bind].
+  intros H.
+  repeat match type of H with
+         | context [if ?c then _ else _] => let E := fresh "E" in destruct c eqn:E
+         end; try discriminate; inversion H; subst; try (exfalso; lia); split; try reflexivity; split.
+  all: try (left; lia); try (right; lia); try (right; split; lia).
+  all: destruct (Z.eqb_spec z 0); [left; assumption|right; lia].
+Qed.
+
+Theorem apply_send_refusal gm vs z b amt e eff :
+  applySend gm vs z b 0 amt = GoSem.Ok (e, eff) -> e <> 0 -> eff = None.
+Proof.
+  unfold applySend. cbv zeta. rewrite !enough_funds_num. cbn [bind].
+  intros H He.
+  repeat match type of H with
+         | context [if ?c then _ else _] => let E := fresh "E" in destruct c eqn:E
+         end; try discriminate; inversion H; subst; try reflexivity; try (exfalso; lia); exfalso; apply He; reflexivity.
+Qed.
+
+(* an accepted send never makes the debit panic: the balance SubBalance then writes is b - amt *)
+Theorem apply_send_then_debit gm vs z b amt eff :
+  z <> 0 -> applySend gm vs z b 0 amt = GoSem.Ok (0, eff) -> SubBalance amt b 0 0 = GoSem.Ok (Some (b - amt)).
+Proof.
+  intros Hz H. apply apply_send_debits in H. destruct H as (_ & [Hz0|Hle] & _); [contradiction|].
+  rewrite sub_balance_num. assert ((amt <=? b) = true) as -> by (apply Z.leb_le; exact Hle). reflexivity.
+Qed.
+
+Theorem apply_receive_credits g m amt eff :
+  applyReceive g m amt = (0, eff) -> eff = Some amt /\ g = 0 /\ m = 0.
+Proof.
+  unfold applyReceive. cbv zeta. intros H.
+  repeat match type of H with
+         | context [if ?c then _ else _] => let E := fresh "E" in destruct c eqn:E
+         end; inversion H; subst; try (exfalso; lia).
+  all: try (split; [reflexivity|split; lia]).
+Qed.
+
+Theorem apply_receive_refusal g m amt e eff :
+  applyReceive g m amt = (e, eff) -> e <> 0 -> eff = None.
+Proof.
+  unfold applyReceive. cbv zeta. intros H He.
+  repeat match type of H with
+         | context [if ?c then _ else _] => let E := fresh "E" in destruct c eqn:E
+         end; inversion H; subst; try reflexivity; try (exfalso; lia); exfalso; apply He; reflexivity.
+Qed.
